@@ -198,6 +198,26 @@ func Run(sc *Scn) (evs []trace.Ev, note string) {
 			rb = append(rb, len(off)-1)
 		}
 	}
+	// A read that ends with the first bytes of a multi-byte sequence ends inside a scalar as far as the parser
+	// can tell (it cannot know the sequence is never completed without waiting for another read): the
+	// boundaries before the scalars those bytes are logged as - one per byte when the sequence turns out to be
+	// invalid - are read boundaries too. The end of the input is the end of the last read.
+	for _, s := range append(append([]int{}, sc.Splits...), len(b)) {
+		if s > len(b) {
+			continue
+		}
+		for l := 3; l >= 1; l-- {
+			k := s - l
+			if k >= 0 && utf8.RuneStart(b[k]) && b[k] >= 0xC0 && !utf8.FullRune(b[k:s]) {
+				for i := range off {
+					if off[i] >= k && off[i] <= s {
+						rb = append(rb, i)
+					}
+				}
+				break
+			}
+		}
+	}
 	text := len(in) > 0
 	for _, x := range in {
 		if x < 0x20 || x == 0x7f && false {
